@@ -339,6 +339,35 @@ theorem C20_once (cs : List LChoice) :
 example : Quiescent (lrun true {} [.wp, .wp, .wp, .wp, .dp, .dp, .dp, .watcher]) := by decide
 example : Quiescent (lrun true {} [.timeout, .dp, .dp, .watcher]) := by decide
 
+/-- the schedule that lets every party run to its end: the rank process, then (after its join returns or
+    times out) the dispatch process, then the watcher -/
+def finishAll : List LChoice := [.wp, .wp, .wp, .wp, .timeout, .dp, .dp, .dp, .watcher, .watcher]
+
+/-- **progress from every reachable state**: wherever the three parties stand - in any state the
+    invariant allows, in particular every state reachable by any interleaving - letting them run to their
+    end brings the request to rest, answered exactly once, its resources returned -/
+theorem C20_progress (s : LS) (h : LInv s) :
+    Quiescent (lrun true s finishAll) ∧ (lrun true s finishAll).answers = 1
+    ∧ (lrun true s finishAll).held = false ∧ (lrun true s finishAll).watcher = true := by
+  have hb := linv_bound s h
+  obtain ⟨h1, h2, h3, h4, h5, h6, h7, h8⟩ := h
+  rcases s with ⟨wp, dp, lk, df, q, ip, hd, ans, wt⟩
+  simp only at h1 h2 h3 h4 h5 h6 h7 h8 hb
+  have hq : (q = 0 ∧ ans = 0) ∨ (q = 1 ∧ ans = 0) ∨ (q = 0 ∧ ans = 1) := by omega
+  subst h1 h2
+  have hall := And.intro h3 (And.intro h4 (And.intro h5 (And.intro h6 (And.intro h7 h8))))
+  clear h3 h4 h5 h6 h7 h8 hb
+  rcases hq with ⟨rfl, rfl⟩ | ⟨rfl, rfl⟩ | ⟨rfl, rfl⟩ <;>
+    cases wp <;> cases dp <;> cases lk <;> cases ip <;> cases hd <;>
+      first
+      | (exact absurd hall (by decide))
+      | decide
+
+/-- ... in particular after any interleaving whatever -/
+theorem C20_progress_reachable (cs : List LChoice) :
+    Quiescent (lrun true (lrun true {} cs) finishAll) ∧ (lrun true (lrun true {} cs) finishAll).answers = 1 :=
+  ⟨(C20_progress _ (linv_run cs {} linv_init)).1, (C20_progress _ (linv_run cs {} linv_init)).2.1⟩
+
 /-- the race the repair removed: the rank process has queued its result and released the lock,
     the join times out before the process has exited.  With the original test (`is_alive()`) a second
     result is queued and the result watcher dies on it; with the recorded flag nothing of the kind -/
@@ -394,6 +423,20 @@ theorem C20_start (cs : List SChoice) :
     | (exact absurd h (by decide))
     | decide
 
+/-- the schedule that lets the request thread, the dispatch process and the watcher finish -/
+def startFinish : List SChoice := [.req, .req, .req, .req, .proc, .watcher]
+
+/-- **progress (start)**: from every state the invariant allows, letting the three parties run to their
+    end answers the request and frees its resources -/
+theorem C20_start_progress (s : SS) (h : sinv s = true) :
+    (srun true s startFinish).answered = true ∧ (srun true s startFinish).held = false
+    ∧ (srun true s startFinish).inPool = false ∧ (srun true s startFinish).watcher = true := by
+  rcases s with ⟨rq, pl, st, fi, q, ip, hd, an, wt⟩
+  cases rq <;> cases pl <;> cases st <;> cases fi <;> cases q <;> cases ip <;> cases hd <;> cases an <;> cases wt <;>
+    first
+    | (exact absurd h (by decide))
+    | decide
+
 /-- the schedule the lock excludes: with the start outside the lock the process can deliver before its pid
     is registered - the watcher dies, the request is never answered, its resources stay busy -/
 theorem C20_start_witness :
@@ -420,6 +463,10 @@ theorem C20_dispatch (p : Proc) (te : List (Nat × Nat)) (pl : Payload) (rc : Bo
     next request runs (code after the repair) -/
 theorem C20_restore (p : Proc) (te : List (Nat × Nat)) (pl : Payload) : (dispatchPy true p te pl).2 = p := by
   unfold dispatchPy; simp
+
+/-- a request that is refused before it runs fails and leaves the worker's environment and streams alone -/
+theorem C20_unresolved (p : Proc) : (dispatchUnresolved p).2 = p ∧ (dispatchUnresolved p).1.ret ≠ 0 := by
+  constructor <;> simp [dispatchUnresolved]
 
 /-- the original restore left what the request had set in the process environment -/
 theorem C20_restore_witness :
